@@ -253,12 +253,16 @@ class BlockAllocationTable:
 
 
 class ParentLocator:
-    def __init__(self, fh: BinaryIO):
+    def __init__(self, fh: BinaryIO, limit: int | None = None):
         self.fh = fh
         self.offset = fh.tell()
         self.header = c_vhdx.parent_locator_header(fh)
         self.type = UUID(bytes_le=self.header.locator_type)
         self._entries = c_vhdx.parent_locator_entry[self.header.key_value_count](fh)
+
+        # Entries may share their strings, but what they name in total can't sensibly exceed what the metadata region holds
+        if limit is not None and sum(entry.key_length + entry.value_length for entry in self._entries) > limit:
+            raise InvalidVirtualDisk("Parent locator entries exceed the size of the metadata region")
 
         self.entries: dict[str, str] = {}
         for entry in self._entries:
@@ -306,7 +310,7 @@ class MetadataTable:
                 continue
 
             fh.seek(self.offset + entry.offset)
-            value = parser(fh)
+            value = parser(fh, self.length) if parser is ParentLocator else parser(fh)
             self.lookup[item_id] = value
 
     def get(self, guid: UUID, required: bool = True) -> Any | None:
